@@ -269,7 +269,11 @@ func (p *Parent) runStage(s Stage, bin string) {
 				p.inconclusive++
 				p.inconclWhy["child crashed in stage "+s.Name]++
 			} else {
-				p.violations = append(p.violations, Violation{Property: id, Kind: "crash", Sig: "crash " + crashSig(r.LogTail),
+				sig := crashSig(r.LogTail)
+				if s.CrashSig != nil {
+					sig = s.CrashSig(r.LogTail, r.LastCase)
+				}
+				p.violations = append(p.violations, Violation{Property: id, Kind: "crash", Sig: "crash " + sig,
 					Detail: fmt.Sprintf("child exited with status %d\n%s", r.ExitCode, r.LogTail), Input: r.LastCase, Stage: s.Name, Batch: r.Batch})
 			}
 		}
